@@ -1,19 +1,27 @@
 """C47 - flow edits through mitmweb are atomic (FlowHandler.put).
 
-Decided (nothing executed).  The *edit* is the body of the one try statement with handlers on the unconditional spine of ``put`` (top
-level, inside ``with`` / try-finally); the *flow* is ``self.flow`` or a local alias; helpers of the handler class and module functions
-of app.py are followed; local names, statement order, if/match, annotations, logging and assertions do not matter.
-  R47.1 (E5) every exception that can be raised inside the edit on an untrusted JSON document (explicit APIError, int(v) ->
-        ValueError/TypeError/OverflowError, add(*header) -> TypeError, .items()/iteration on a non-dict/non-list, and everything raised
-        by the Request/Response property setters the edit triggers: idna/ascii encoding, type checks, content encoders) reaches a handler
-        that restores the flow (``<flow>.set_state(x)`` / ``<flow>.revert()``, directly or through a helper) before anything else can
-        happen; and nothing raised on untrusted data leaves ``put`` between a mutation placed before the try statement and that statement.
-  R47.2 the restore point is taken before the first mutation on every path, and every normally completing path notifies the view
-        (``...view.update(..)``).  Mutation = attribute / item store on anything but the handler object, setattr, or a mutator method
-        (clear, add, insert, ...), also inside inlined helpers.
-  R47.3 the state restored by the failure handler is the state at entry of ``put``: either a local bound once, unconditionally before
-        the edit, to ``<flow>.get_state()`` and restored with ``<flow>.set_state(X)``, or ``backup()``/``revert()`` with an unconditional
-        backup.  ``set_state(<flow>.get_state())`` evaluated in the handler is reported.
+Decided (nothing executed; repository code is only parsed and *interpreted from its AST*).
+  R47.1 (E5, may-raise) the *edit* is the part of ``put`` guarded by the one try statement with a restoring handler on the unconditional
+        spine of ``put`` (top level, inside ``with`` / try-finally) - written in put, or supplied by a @contextmanager generator of app.py
+        that put enters (``with _guarded(flow):`` - the with-body runs at the generator's ``yield``, so the handlers around that yield
+        are the handlers of the with-body).  Every exception that can be raised inside the edit on an untrusted JSON document (explicit
+        APIError, int(v) -> ValueError/TypeError/OverflowError, add(*header) -> TypeError, .items()/iteration on a non-dict/non-list, and
+        everything raised by the Request/Response property setters the edit triggers: idna/ascii encoding, type checks, content encoders)
+        reaches a handler that restores the flow (``<flow>.set_state(x)`` / ``<flow>.revert()``, directly or through a helper) before
+        anything else can happen; and nothing raised on untrusted data leaves ``put`` between a mutation placed before the guarded
+        statements and those statements.  The flow is ``self.flow`` or a local alias / the generator's parameter bound to it; helpers of
+        the handler class and module functions of app.py are followed; ``setattr(obj, NAME, v)`` is analysed for every string NAME can
+        denote (guards, module-level tables incl. computed ones, ``TABLE.get(k)`` locals, parameters through all call sites).
+  R47.2 (E3, pyint) every accepted edit is announced to the view: ``put`` is interpreted on valid edit documents; when it returns,
+        ``view.update([flow])`` has been called with the flow in its final state.
+  R47.3 (E3, pyint) every rejected edit leaves the flow exactly as it was at entry: ``put`` (with its helpers, tables, context managers,
+        ``Flow.backup`` / ``Flow.revert``) is interpreted on edit documents with one invalid part (unknown field, malformed port / status
+        code / header list / trailer list, invalid host, a section that is no mapping) at every position of the request, the response
+        and the document, on abstract HTTP flows with / without an earlier backup and with / without trailers; the observable state
+        (all message fields, header / trailer fields, marked, comment, metadata, backup) after the rejection must equal the state at
+        entry.  This covers: restore point taken after a mutation, restoring the oldest backup (``revert()`` after an earlier edit),
+        restoring a state evaluated at failure time, conditional restores.  Local names, statement order, if/match/tables, helper
+        extraction, annotations, logging and assertions do not matter.
   R47.4 (E3, pyint) the restore point is a *snapshot*: ``HTTPFlow.get_state`` (with ``Flow.get_state``, ``Message.get_state``,
         ``MessageData.get_state``, ``MultiDict.get_state``) is interpreted from its AST on an abstract flow for every combination of
         request/response headers {empty, non-empty} x trailers {None, empty, non-empty} x response {present, absent}; the returned state
@@ -22,11 +30,14 @@ of app.py are followed; local names, statement order, if/match, annotations, log
         together with the flow, so ``set_state(old_state)`` "restores" the rejected edit - clause "leaves the flow exactly as it was".
         Truthiness of a Headers object is modelled as "has fields" (checked: no ``__bool__`` in the MRO and the interpreted ``__len__`` is 0
         exactly for an object without fields).
-Untrusted data is ``self.json`` and every local computed from it before the try statement.  ``<flow>.request`` / ``<flow>.response`` and
+Untrusted data is ``self.json`` and every local of put computed from it.  ``<flow>.request`` / ``<flow>.response`` and
 un-annotated locals bound to them are typed http.Request / http.Response (so their property setters are analysed with or without the
 annotated temporaries).
+In the worlds of R47.2/R47.3 the messages are abstract records (the property setters are abstracted to their type checks and the host
+check - R47.1 analyses the real setters), Headers is an ordered multi-dict stand-in, and get_state / set_state of the abstract flow are
+a deep snapshot and its restore (R47.4 decides the snapshot part for the real code).
 NOT decided: that set_state(get_state()) is the identity (C36/C40 territory); exceptions outside the modelled table; flows other than
-HTTPFlow.
+HTTPFlow; edit documents outside the enumerated world for R47.2/R47.3 (R47.1 covers every document for the exception-coverage clause).
 """
 
 from __future__ import annotations
@@ -35,19 +46,24 @@ import ast
 
 from ..core import AnalysisError
 from ..core import norm
-from ..model import walk_in_order
-from ..paths import GenericSpec
-from ..paths import precedes
-from ..paths import traces_of
+from ..model import attr_chain
+from ..model import enclosing_func
 from ..selftest import Mutant
 from ._helpers_H import Config
+from ._helpers_H import ExcHierarchy
 from ._helpers_H import MayRaise
+from ._helpers_H import _is_cm
 from ._helpers_H import _own_nodes
+from ._helpers_H import bounded_strings
+from ._helpers_H import cached_model
+from ._helpers_H import guards_at
+from ._helpers_H import modules_mentioning
 
 PROP = "C47"
 REG = {
     "strength": "partial",
-    "technique": "exception-escape sets vs. reverting handlers (E5, property setters resolved through annotated locals) + must-precede path facts "
+    "technique": "exception-escape sets vs. reverting handlers (E5, property setters resolved through annotated locals) + AST interpretation of "
+    "FlowHandler.put on a world of valid/invalid edit documents (state after a rejected edit == state at entry) "
     "+ AST interpretation of HTTPFlow.get_state on abstract flows (snapshot independence)",
     "claim": "every explicit raise and modelled implicit raiser of FlowHandler.put's edit loop (including the Request/Response property setters it "
     "drives) reaches a handler that restores the flow; the restore point is taken before the first mutation and is the state at entry; success "
@@ -126,15 +142,25 @@ def _restore_in(model, cls_qual, stmts, flows, depth=0):
             f = c.func
             if isinstance(f, ast.Attribute) and f.attr in RESTORE_METHODS and norm(f.value) in flows:
                 return f.attr, (c.args[0] if len(c.args) == 1 and not c.keywords else None) if f.attr == "set_state" else None, c
+            callee = None
             if depth < 2 and isinstance(f, ast.Attribute) and isinstance(f.value, ast.Name) and f.value.id in ("self", "cls") and model.method(APP, cls_qual, f.attr) is not None:
                 m, callee = model.method(APP, cls_qual, f.attr)
                 decs = {norm(d) for d in callee.decorator_list}
                 ps = [a.arg for a in callee.args.posonlyargs + callee.args.args][0 if "staticmethod" in decs else 1:]
+                seeds = {"self.flow"}
+            elif depth < 2 and isinstance(f, ast.Name):
+                # a module function of app.py: `_undo(flow, snapshot)`
+                r = model.resolve_name(model.module(APP), f)
+                if r is not None and r[0].rel == APP and isinstance(r[1], ast.FunctionDef) and not r[1].decorator_list:
+                    callee = r[1]
+                    ps = [a.arg for a in callee.args.posonlyargs + callee.args.args]
+                    seeds = set()
+            if callee is not None:
                 if any(isinstance(a, ast.Starred) for a in c.args) or any(k.arg is None for k in c.keywords) or len(c.args) > len(ps):
                     continue
                 bound = dict(zip(ps, c.args))
                 bound.update({k.arg: k.value for k in c.keywords})
-                inner = _restore_in(model, cls_qual, callee.body, _closure(callee, {"self.flow"} | {p for p, a in bound.items() if norm(a) in flows}), depth + 1)
+                inner = _restore_in(model, cls_qual, callee.body, _closure(callee, seeds | {p for p, a in bound.items() if norm(a) in flows}), depth + 1)
                 if inner is not None:
                     snap = inner[1]
                     if snap is not None:
@@ -166,72 +192,242 @@ def _local_types(frame):
     return out
 
 
+def _table_strings(model, mod, name: str):
+    """values a module-level table denotes, when it is a literal / comprehension over literals that pyint evaluates to a mapping or
+    collection of strings: (keys-or-elements, values | None)"""
+    from ..pyint import Interp
+
+    if len(mod.assigns(name)) != 1:
+        return None
+    try:
+        v = Interp(model).modconst(mod, name, 0)
+    except Exception:  # noqa: BLE001 - not a constant table
+        return None
+    if isinstance(v, dict) and v and all(isinstance(k, str) for k in v):
+        return list(v), list(v.values())
+    if isinstance(v, (list, tuple, set, frozenset)) and v and all(isinstance(k, str) for k in v):
+        return sorted(v), None
+    return None
+
+
+def _attr_names(model, mod, fn, node, e, depth=0):
+    """The finite set of strings the expression ``e`` can denote when ``node`` (inside ``fn``) is evaluated, or None when it is not bounded:
+    a constant; a name guarded by ``k in (<constants>)`` / ``k in TABLE`` / ``k == c`` / a match arm; a local bound once to
+    ``TABLE[x]`` / ``TABLE.get(x)`` (module-level table of strings; the ``None`` default excluded by an ``is not None`` / truth guard);
+    a parameter of a private function of the module: the union over every call site (the function must not escape as a value)."""
+    if isinstance(e, ast.Constant):
+        return [e.value] if isinstance(e.value, str) else None
+    if not isinstance(e, ast.Name) or depth > 3:
+        return None
+    got = bounded_strings(node, fn, e.id, mod)
+    if got is None:
+        for g, val in guards_at(node, fn):  # `k in TABLE` where TABLE is computed (frozenset({...}), dict comprehension ...)
+            if val and isinstance(g, ast.Compare) and len(g.ops) == 1 and isinstance(g.ops[0], ast.In) and norm(g.left) == e.id and isinstance(g.comparators[0], ast.Name) \
+                    and not any(isinstance(n, ast.Name) and n.id == g.comparators[0].id and isinstance(n.ctx, ast.Store) for n in _own_nodes(fn)):
+                tv = _table_strings(model, mod, g.comparators[0].id)
+                if tv is not None:
+                    got = tv[0]
+    if got is not None:
+        return got if all(isinstance(x, str) for x in got) else None
+    a = fn.args
+    params = [x.arg for x in a.posonlyargs + a.args + a.kwonlyargs]
+    stores = [n for n in _own_nodes(fn) if isinstance(n, ast.Name) and n.id == e.id and isinstance(n.ctx, (ast.Store, ast.Del))]
+    if e.id in params:
+        if stores or a.vararg is not None or a.kwarg is not None:
+            return None
+        return _param_strings(model, mod, fn, e.id, depth)
+    if len(stores) != 1:
+        return None
+    bind = getattr(stores[0], "_parent", None)
+    val = bind.value if isinstance(bind, (ast.NamedExpr, ast.Assign, ast.AnnAssign)) and getattr(bind, "value", None) is not None and \
+        (bind.target if not isinstance(bind, ast.Assign) else bind.targets[0]) is stores[0] and (not isinstance(bind, ast.Assign) or len(bind.targets) == 1) else None
+    if val is None:
+        return None
+    tbl, maybe_none = None, False
+    if isinstance(val, ast.Subscript) and isinstance(val.value, ast.Name):
+        tbl = val.value.id
+    elif isinstance(val, ast.Call) and isinstance(val.func, ast.Attribute) and val.func.attr == "get" and isinstance(val.func.value, ast.Name) and not val.keywords and len(val.args) in (1, 2):
+        tbl = val.func.value.id
+        default = val.args[1] if len(val.args) == 2 else ast.Constant(value=None)
+        if not isinstance(default, ast.Constant) or (default.value is not None and not isinstance(default.value, str)):
+            return None
+        maybe_none = default.value is None
+        extra = [] if default.value is None else [default.value]
+    else:
+        return _attr_names(model, mod, fn, bind, val, depth + 1) if isinstance(val, (ast.Name, ast.Constant)) else None
+    if any(isinstance(n, ast.Name) and n.id == tbl and isinstance(n.ctx, ast.Store) for n in _own_nodes(fn)) or tbl in params:
+        return None
+    tv = _table_strings(model, mod, tbl)
+    if tv is None or tv[1] is None or not all(isinstance(x, str) for x in tv[1]):
+        return None
+    names = list(tv[1]) + (extra if isinstance(val, ast.Call) else [])
+    if maybe_none:
+        # the None default must be excluded where the name is used: `if (k := T.get(x)) is not None`, `if k is not None`, `if k:`
+        def excludes_none(g):
+            if isinstance(g, ast.Compare) and len(g.ops) == 1 and isinstance(g.ops[0], ast.IsNot) and isinstance(g.comparators[0], ast.Constant) and g.comparators[0].value is None:
+                g = g.left
+            elif not isinstance(g, (ast.Name, ast.NamedExpr)):
+                return False
+            return (isinstance(g, ast.Name) and g.id == e.id) or (isinstance(g, ast.NamedExpr) and g.target.id == e.id)
+
+        if not any(val_ and excludes_none(g) for g, val_ in guards_at(node, fn)):
+            return None
+    return names
+
+
+def _param_strings(model, mod, fn, pname: str, depth):
+    parent = getattr(fn, "_parent", None)
+    if not fn.name.startswith("_") or fn.name.startswith("__") or fn.decorator_list and any(norm(d) not in ("staticmethod", "classmethod") for d in fn.decorator_list):
+        return None
+    if not isinstance(parent, (ast.Module, ast.ClassDef)):
+        return None
+    if [m for m in modules_mentioning(model, fn.name) if m.rel != mod.rel]:
+        return None  # the private name occurs in another module: its callers are not all known
+    a = fn.args
+    pos = [x.arg for x in a.posonlyargs + a.args]
+    method = isinstance(parent, ast.ClassDef) and "staticmethod" not in {norm(d) for d in fn.decorator_list}
+    out: list = []
+    sites = 0
+    for n in ast.walk(mod.tree):
+        ref = (isinstance(n, ast.Name) and n.id == fn.name and isinstance(n.ctx, ast.Load)) or (isinstance(n, ast.Attribute) and n.attr == fn.name)
+        if not ref:
+            continue
+        call = getattr(n, "_parent", None)
+        if not (isinstance(call, ast.Call) and call.func is n):
+            return None  # the function is used as a value (stored, passed on): callers unknown
+        if any(isinstance(x, ast.Starred) for x in call.args) or any(k.arg is None for k in call.keywords):
+            return None
+        arg = next((k.value for k in call.keywords if k.arg == pname), None)
+        if arg is None and pname in pos:
+            i = pos.index(pname) - (1 if method and isinstance(n, ast.Attribute) and not (isinstance(n.value, ast.Name) and n.value.id == getattr(parent, "name", None)) else 0)
+            arg = call.args[i] if 0 <= i < len(call.args) else None
+        if arg is None:
+            d = dict(zip(pos[len(pos) - len(a.defaults):], a.defaults))
+            d.update({k.arg: v for k, v in zip(a.kwonlyargs, a.kw_defaults) if v is not None})
+            arg = d.get(pname)
+        site_fn = enclosing_func(call)
+        if arg is None or site_fn is None:
+            return None
+        got = _attr_names(model, mod, site_fn, call, arg, depth + 1)
+        if got is None:
+            return None
+        out.extend(x for x in got if x not in out)
+        sites += 1
+    return out if sites else None
+
+
+def _setattr_by_table(frame, call):
+    """Config.dynamic hook of the may-raise engine: ``setattr(<typed object>, NAME, v)`` whose NAME the engine's own guard matching does
+    not bound but which ranges over a finite set of strings (see _attr_names) is analysed as the property stores ``obj.<name> = v``
+    for every such name - what the engine does for ``if k in [..]: setattr(obj, k, v)``."""
+    f = call.func
+    if not (isinstance(f, ast.Name) and f.id == "setattr" and len(call.args) == 3 and not call.keywords) or frame._is_local("setattr"):
+        return None
+    obj, k, _ = call.args
+    typed = (isinstance(obj, ast.Name) and obj.id in frame.types) or (isinstance(obj, ast.Attribute) and attr_chain(obj) in frame.types)
+    if not typed:
+        return None
+    if isinstance(k, ast.Name) and bounded_strings(call, frame.fn, k.id, frame.mod) is not None:
+        return None  # the engine bounds it itself
+    names = _attr_names(frame.eng.model, frame.mod, frame.fn, call, k)
+    if names is None:
+        return None  # the engine refuses (unbounded attribute name)
+    pos = frame.arg_kinds(call)[0]
+    for n in names:
+        frame.property_access(ast.Attribute(value=obj, attr=n, ctx=ast.Store()), store=True, value_kind=pos[2])
+    return ("raises", (), None)
+
+
+class _Guard:
+    """A try statement with handlers that guards part of ``put``: written in put itself, or supplied by a @contextmanager generator of
+    app.py whose ``yield`` lies in the body of the try statement (the with-body of put then runs *at* the yield, so the handlers of
+    the generator answer the exceptions of the with-body exactly like the handlers of a try statement written in put)."""
+
+    def __init__(self, pre, body, t, owner, flows, stmt, cm_pre=(), cm_body=(), cm_env=None):
+        self.pre, self.body, self.t, self.owner, self.flows, self.stmt = pre, body, t, owner, flows, stmt
+        self.cm_pre, self.cm_body, self.cm_env = list(cm_pre), list(cm_body), cm_env or {}
+
+
+def _yield_stmts(stmts):
+    """statements of the unconditional spine of ``stmts`` (descending into with / handler-less try) that are a bare yield"""
+    out = []
+    for s in stmts:
+        if isinstance(s, (ast.Expr, ast.Assign, ast.AnnAssign)) and isinstance(getattr(s, "value", None), ast.Yield):
+            out.append(s)
+        elif isinstance(s, (ast.With, ast.AsyncWith)) or (isinstance(s, ast.Try) and not s.handlers):
+            out.extend(_yield_stmts(s.body))
+    return out
+
+
+def _guards(fn, flows, resolver, tainted):
+    """[_Guard] for the unconditional spine of ``fn`` (top level, descending into ``with`` blocks and handler-less try/finally bodies)."""
+    found, pre = [], []
+
+    def cm_guard(s, call):
+        callee = resolver(call)
+        if callee is None or not _is_cm(callee):
+            return None
+        ys = [n for n in _own_nodes(callee) if isinstance(n, (ast.Yield, ast.YieldFrom))]
+        if len(ys) != 1 or not isinstance(ys[0], ast.Yield):
+            raise AnalysisError(f"{callee.name}: a @contextmanager with {len(ys)} yield expressions is not modelled")
+        for cpre, t in _spine(callee):
+            y = _yield_stmts(t.body)
+            if not y:
+                continue
+            a = callee.args
+            decs = {norm(d) for d in callee.decorator_list}
+            method = isinstance(getattr(callee, "_parent", None), ast.ClassDef) and "staticmethod" not in decs
+            ps = [x.arg for x in a.posonlyargs + a.args][1 if method else 0:]
+            if any(isinstance(x, ast.Starred) for x in call.args) or any(k.arg is None for k in call.keywords) or len(call.args) > len(ps):
+                raise AnalysisError(f"{callee.name}: call shape `{norm(call)}` not modelled")
+            bound = dict(zip(ps, call.args))
+            bound.update({k.arg: k.value for k in call.keywords})
+            cflows = _closure(callee, ({"self.flow"} if method else set()) | {p for p, x in bound.items() if norm(x) in flows})
+            cenv = {p: "A" for p, x in bound.items() if tainted(x)}
+            inner = [x for x in t.body if x is not y[0]]
+            if any(y[0] is not x and y[0] in list(ast.walk(x)) for x in t.body):
+                inner = list(t.body)  # the yield sits inside a nested with / try-finally of the try body: keep those statements as they are
+            return _Guard(list(pre), s.body, t, callee, cflows, s, cm_pre=cpre, cm_body=inner, cm_env=cenv)
+        return None
+
+    def walk(stmts):
+        for s in stmts:
+            if isinstance(s, ast.Try) and s.handlers:
+                found.append(_Guard(list(pre), s.body, s, fn, flows, s))
+            elif isinstance(s, (ast.With, ast.AsyncWith)):
+                for item in s.items:
+                    g = cm_guard(s, item.context_expr) if isinstance(item.context_expr, ast.Call) else None
+                    if g is not None:
+                        found.append(g)
+                walk(s.body)
+            elif isinstance(s, ast.Try):
+                walk(s.body)
+            pre.append(s)
+
+    walk(fn.body)
+    return found
+
+
 def check(ctx):
-    ctx.rule("R47.1", "escape set of the edit (the body of put's try statement) is within the handlers that restore the flow")
-    ctx.rule("R47.2", "restore point taken before the first mutation; success paths call view.update")
-    ctx.rule("R47.3", "the restore point used on failure is the state at entry of put")
-    fn = ctx.func(APP, QUAL)
-    cls_qual = QUAL.rsplit(".", 1)[0]
+    ctx.rule("R47.1", "escape set of the edit (the statements of put guarded by the restoring try statement) is within the handlers that restore the flow")
+    ctx.rule("R47.2", "every accepted edit is announced to the view (put interpreted on valid edit documents)")
+    ctx.rule("R47.3", "every rejected edit leaves the flow exactly as it was at entry of put (put interpreted on invalid edit documents)")
+    ctx.func(APP, QUAL)
     ctx.func(FLOW, "Flow.backup")
     ctx.func(FLOW, "Flow.revert")
-    flows = _closure(fn, {"self.flow"})  # texts that denote the edited flow
-    tries = _spine(fn)
-    # the edit is guarded by the try statement that has a restoring handler (other try statements - e.g. around the view update - are not it)
-    restoring = [(p, x) for p, x in tries if any(_restore_in(ctx.model, cls_qual, h.body, flows) is not None for h in x.handlers)]
-    ctx.require(len(restoring) == 1 or (not restoring and len(tries) == 1),
-                f"FlowHandler.put: expected exactly one try statement with a restoring handler on the unconditional spine of put, found {len(restoring)} of {len(tries)}")
-    pre, t = (restoring or tries)[0]
-    # untrusted data: the decoded JSON document (self.json) and every local computed from it before the try statement
-    single = _single_bindings(fn)
-    env = {"self.json": "A"}
-    changed = True
-    while changed:
-        changed = False
-        for st in pre:
-            for n in [st] + list(_own_nodes(st)):
-                tgts, val = ([n.target], n.value) if isinstance(n, (ast.AnnAssign, ast.NamedExpr, ast.AugAssign)) else (n.targets, n.value) if isinstance(n, ast.Assign) else ([], None)
-                if val is None or not any(norm(x) in env for x in ast.walk(val) if isinstance(x, (ast.Name, ast.Attribute))):
-                    continue
-                for tg in tgts:
-                    for x in ast.walk(tg):
-                        if isinstance(x, ast.Name) and isinstance(x.ctx, ast.Store) and x.id not in env:
-                            env[x.id] = "A"
-                            changed = True
+    hier = ctx.guard(_escape_rule, ctx)
+    ctx.guard(_atomic_rule, ctx, hier or ExcHierarchy(cached_model(ctx.model)))
+    # ---- R47.4
+    ctx.rule("R47.4", "the state put() restores from contains none of the flow's live objects (a snapshot, not an alias)")
+    ctx.guard(_snapshot_rule, ctx)
+    ctx.expect_instances("R47.4", 1)
 
-    # ---- R47.1
-    cfg = Config(local_types=_local_types, externals={
-        "zlib.compress": (("Exception",), "V"), "brotli.compress": (("Exception",), "V"), "zstd.compress": (("Exception",), "V"),
-        "codecs.encode": (("LookupError", "ValueError", "TypeError"), "V"), "CachedDecode": ((), "V"),
-    })
-    ctx.trust("zlib/brotli/zstd compress and codecs.encode raise Exception subclasses only")
-    mr = MayRaise(ctx, cfg)
-    esc = mr.region(APP, QUAL, t.body, env)
-    key = mr.key_of_region(APP, QUAL, env)
-    ctx.require(mr.sites >= 30 and len(mr.functions) >= 15, f"escape analysis collapsed: {mr.sites} sites, {sorted(mr.functions)}")
-    ctx.require({"APIError", "ValueError", "TypeError", "AttributeError"} <= {e.exc for e in esc},
-                f"modelled raisers of the edit vanished: {sorted({e.exc for e in esc})}")
-    ctx.paths += mr.sites
-    for f in mr.functions:
-        ctx.functions.add(f)
-    mod = mr.model.module(APP)
-    hs = []
-    for h in t.handlers:
-        names = ["BaseException"] if h.type is None else [mr.h.canon(mod, e) for e in (h.type.elts if isinstance(h.type, ast.Tuple) else [h.type])]
-        hs.append((h, names, _restore_in(ctx.model, cls_qual, h.body, flows)))
-    bad = {}
-    for e in sorted(esc, key=lambda e: (e.exc, e.rel, e.qual, e.text)):
-        hit = next(((h, r) for h, names, r in hs if any(mr.h.isa(e.exc, n) for n in names)), None)
-        if hit is None:
-            bad.setdefault(e.exc, ("no handler of the edit catches it", e))
-        elif hit[1] is None:
-            bad.setdefault(e.exc, (f"the handler `except {norm(hit[0].type) if hit[0].type else ''}` does not restore the flow first", e))
-    for typ, (why, e) in sorted(bad.items()):
-        ctx.fail("R47.1", (APP, QUAL, t), f"{typ} leaves the edit loop without a revert",
-                 f"{typ} raised at {e.site()} ({e.why}): {why}; earlier fields of the same edit stay applied; call chain: " + " -> ".join(mr.chain(key, e)),
-                 chain=mr.chain(key, e))
-    # mutations between the restore point and the try statement are not covered by any handler: nothing raised there on untrusted data
-    # may leave put() (statements after the try run only when the whole edit was applied)
+
+def _escape_rule(ctx):
+    fn = ctx.func(APP, QUAL)
+    cls_qual = QUAL.rsplit(".", 1)[0]
     amod = ctx.model.module(APP)
+    flows = _closure(fn, {"self.flow"})  # texts that denote the edited flow
 
     def resolver(call):
         # private helpers of the handler (self._x(...), FlowHandler._x(...)) and module functions of app.py are inlined
@@ -244,6 +440,69 @@ def check(ctx):
             return r[1] if r is not None and r[0].rel == APP and isinstance(r[1], ast.FunctionDef) else None
         return None
 
+    # untrusted data: the decoded JSON document (self.json) and every local computed from it anywhere in put (flow-insensitive)
+    env = {"self.json": "A"}
+    changed = True
+    while changed:
+        changed = False
+        for n in _own_nodes(fn):
+            tgts, val = ([n.target], n.value) if isinstance(n, (ast.AnnAssign, ast.NamedExpr, ast.AugAssign)) else (n.targets, n.value) if isinstance(n, ast.Assign) else ([], None)
+            if val is None or not any(norm(x) in env for x in ast.walk(val) if isinstance(x, (ast.Name, ast.Attribute))):
+                continue
+            for tg in tgts:
+                for x in ast.walk(tg):
+                    if isinstance(x, ast.Name) and isinstance(x.ctx, ast.Store) and x.id not in env:
+                        env[x.id] = "A"
+                        changed = True
+
+    def tainted(expr):
+        return any(norm(x) in env for x in ast.walk(expr) if isinstance(x, (ast.Name, ast.Attribute)))
+
+    guards = _guards(fn, flows, resolver, tainted)
+    # the edit is guarded by the try statement that has a restoring handler (other try statements - e.g. around the view update - are not it)
+    restoring = [g for g in guards if any(_restore_in(ctx.model, cls_qual, h.body, g.flows) is not None for h in g.t.handlers)]
+    ctx.require(len(restoring) == 1 or (not restoring and len(guards) == 1),
+                f"FlowHandler.put: expected exactly one try statement (in put, or of a @contextmanager put enters) with a restoring handler on the unconditional spine of put, found {len(restoring)} of {len(guards)}")
+    g = (restoring or guards)[0]
+    t, pre = g.t, g.pre
+    oq = g.owner._qual
+
+    cfg = Config(local_types=_local_types, dynamic=_setattr_by_table, externals={
+        "zlib.compress": (("Exception",), "V"), "brotli.compress": (("Exception",), "V"), "zstd.compress": (("Exception",), "V"),
+        "codecs.encode": (("LookupError", "ValueError", "TypeError"), "V"), "CachedDecode": ((), "V"),
+    })
+    ctx.trust("zlib/brotli/zstd compress and codecs.encode raise Exception subclasses only")
+    mr = MayRaise(ctx, cfg)
+    # in put the locals computed from self.json *before* the guarded statements are untrusted at its entry; inside them the engine propagates
+    esc = mr.region(APP, QUAL, g.body, env)
+    if g.cm_body:
+        esc = esc | mr.region(APP, oq, g.cm_body, g.cm_env)
+    key = mr.key_of_region(APP, QUAL, env)
+    ctx.require(mr.sites >= 30 and len(mr.functions) >= 15, f"escape analysis collapsed: {mr.sites} sites, {sorted(mr.functions)}")
+    ctx.require({"APIError", "ValueError", "TypeError", "AttributeError"} <= {e.exc for e in esc},
+                f"modelled raisers of the edit vanished: {sorted({e.exc for e in esc})}")
+    ctx.paths += mr.sites
+    for f in mr.functions:
+        ctx.functions.add(f)
+    mod = mr.model.module(APP)
+    hs = []
+    for h in t.handlers:
+        names = ["BaseException"] if h.type is None else [mr.h.canon(mod, e) for e in (h.type.elts if isinstance(h.type, ast.Tuple) else [h.type])]
+        hs.append((h, names, _restore_in(ctx.model, cls_qual, h.body, g.flows)))
+    bad = {}
+    for e in sorted(esc, key=lambda e: (e.exc, e.rel, e.qual, e.text)):
+        hit = next(((h, r) for h, names, r in hs if any(mr.h.isa(e.exc, n) for n in names)), None)
+        if hit is None:
+            bad.setdefault(e.exc, ("no handler of the edit catches it", e))
+        elif hit[1] is None:
+            bad.setdefault(e.exc, (f"the handler `except {norm(hit[0].type) if hit[0].type else ''}` does not restore the flow first", e))
+    for typ, (why, e) in sorted(bad.items()):
+        ctx.fail("R47.1", (APP, oq, t), f"{typ} leaves the edit loop without a revert",
+                 f"{typ} raised at {e.site()} ({e.why}): {why}; earlier fields of the same edit stay applied; call chain: " + " -> ".join(mr.chain(key, e)),
+                 chain=mr.chain(key, e))
+
+    # mutations before the guarded statements are not covered by any handler: nothing raised there on untrusted data may leave put()
+    # (statements after them run only when the whole edit was applied)
     def mutates(node, depth=0):
         for n in [node] + list(_own_nodes(node)):
             tg = n.targets if isinstance(n, (ast.Assign, ast.Delete)) else [n.target] if isinstance(n, (ast.AugAssign, ast.AnnAssign)) and getattr(n, "value", True) is not None else []
@@ -255,91 +514,243 @@ def check(ctx):
                 if (isinstance(n.func, ast.Name) and n.func.id == "setattr") or (isinstance(n.func, ast.Attribute) and n.func.attr in MUTATORS):
                     return True
                 callee = resolver(n) if depth < 3 else None
-                if callee is not None and any(mutates(s, depth + 1) for s in callee.body):
+                if callee is not None and not _is_cm(callee) and any(mutates(s, depth + 1) for s in callee.body):
                     return True
         return False
 
     first = next((i for i, st in enumerate(pre) if mutates(st)), None)
-    if first is not None:
-        outside = mr.region(APP, QUAL, pre[first:], env)
+    first_cm = 0 if first is not None else next((i for i, st in enumerate(g.cm_pre) if mutates(st)), None)
+    if first is not None or first_cm is not None:
+        outside = frozenset()
+        at = pre[first] if first is not None else g.cm_pre[first_cm]
+        if first is not None:
+            outside |= mr.region(APP, QUAL, pre[first:], env)
+        if first_cm is not None and g.cm_pre[first_cm:]:
+            outside |= mr.region(APP, oq, g.cm_pre[first_cm:], g.cm_env)
         for e in sorted(outside, key=lambda e: (e.exc, e.rel, e.qual, e.text)):
             if e.exc not in bad:
                 bad[e.exc] = ("raised outside the try statement", e)
-                ctx.fail("R47.1", (APP, QUAL, pre[first]), f"{e.exc} leaves put() outside the restoring try statement",
-                         f"`{norm(pre[first])[:60]}` mutates the flow before the try statement is entered and {e.exc} raised at {e.site()} ({e.why}) is not answered by any "
+                ctx.fail("R47.1", (APP, QUAL if first is not None else oq, at), f"{e.exc} leaves put() outside the restoring try statement",
+                         f"`{norm(at)[:60]}` mutates the flow before the try statement is entered and {e.exc} raised at {e.site()} ({e.why}) is not answered by any "
                          "restoring handler: the part of the edit applied so far stays")
     if not bad:
         ctx.ok("R47.1", f"{mr.sites} raiser sites in {len(mr.functions)} functions; escape set {sorted({e.exc for e in esc})} all reach a restoring handler")
     ctx.sample({"rule": "R47.1", "escape_set": sorted({e.exc for e in esc}), "handlers": [(names, bool(r)) for _, names, r in hs],
+                "guard": f"{oq}: try statement" + (f" entered through `with {norm(g.stmt.items[0].context_expr)}`" if g.owner is not fn else ""),
                 "setters_analysed": sorted(f for f in mr.functions if "http.py" in f)})
     ctx.expect_instances("R47.1", 1)
+    return mr.h
 
-    # ---- R47.3 (which restore point) and R47.2 (when it is taken)
-    restores = [r for _, _, r in hs if r is not None]
-    ctx.require(restores, "no handler of the edit restores the flow (R47.1 reports it); restore point unknown") if not bad else None
-    point = None  # method that takes the restore point
-    for what, snap, r in restores:
-        if what == "set_state":
-            if isinstance(snap, ast.Call) and isinstance(snap.func, ast.Attribute) and snap.func.attr == "get_state" and norm(snap.func.value) in flows:
-                ctx.fail("R47.3", (APP, QUAL, r), "flow.set_state(<snapshot>) restores a snapshot taken at entry",
-                         f"the failure handler restores `{norm(snap)}` evaluated at the time of the failure: that state already contains the rejected part of the edit")
-                point = "get_state"
-                continue
-            ctx.require(isinstance(snap, ast.Name), f"unmodelled restore {norm(r)}")
-            val, st = single.get(snap.id, (None, None))
-            ok = st is not None and any(st is p for p in pre) and isinstance(val, ast.Call) and isinstance(val.func, ast.Attribute) and val.func.attr == "get_state" \
-                and norm(val.func.value) in flows and not val.args and not val.keywords
-            ctx.check(ok, "R47.3", (APP, QUAL, r), "flow.set_state(<snapshot>) restores a snapshot taken at entry",
-                      f"`{snap.id}` is not an unconditional `flow.get_state()` snapshot taken once before the edit", desc=f"snapshot {snap.id} = flow.get_state() restored on failure")
-            point = "get_state"
-        else:
-            bk = ctx.func(FLOW, "Flow.backup")
-            stores = [s for s in walk_in_order(bk) if isinstance(s, ast.Assign) and any(norm(x) == "self._backup" for x in s.targets)]
-            uncond = any(s._parent is bk for s in stores)
-            ctx.check(uncond, "R47.3", (APP, QUAL, r), "flow.revert() restores the oldest backup, not the state at entry",
-                      "Flow.backup() keeps an existing backup (`if not self._backup`), so after an earlier successful edit a failing edit reverts to "
-                      "the state before BOTH edits: the flow is not left exactly as it was", desc="backup() unconditional")
-            point = "backup"
-    ctx.expect_instances("R47.3", 1) if restores else None
 
-    if point is not None:
-        def is_point(ev):
-            return ev[0] == "call" and "." in ev[1] and ev[1].rsplit(".", 1)[1] == point and ev[1].rsplit(".", 1)[0] in flows
+def _atomic_rule(ctx, hier):
+    """R47.2 / R47.3 by interpretation: ``FlowHandler.put`` is run from its AST (pyint; helpers, tables, ``with`` over @contextmanager
+    generators, Flow.backup / Flow.revert are interpreted too) on a small world of edit documents - every valid field, and one invalid
+    part (unknown field, malformed port / status code / header list / trailer list, invalid host, a section that is no mapping) at
+    every position of the request, the response and the document itself - against abstract HTTP flows (with / without an earlier
+    backup, with / without trailers).  Decided: a rejected edit leaves the observable flow state (every request / response field,
+    header and trailer fields, marked, comment, backup) exactly as it was at entry; an accepted edit announces the final flow to the
+    view.  ``get_state`` / ``set_state`` of the abstract flow are a deep snapshot / its restore (R47.4 and C36/C40 decide the real ones)."""
+    import copy as _copy
 
-        def is_update(ev):
-            return ev[0] == "call" and (ev[1] == "view.update" or ev[1].endswith(".view.update"))
+    from ..pyint import Interp
+    from ..pyint import Raised
+    from ..pyint import Rec
 
-        def is_mut(ev):
-            if ev[0] == "call":
-                return not is_point(ev) and not is_update(ev) and (ev[1] == "setattr" or ev[1].rsplit(".", 1)[-1] in MUTATORS and "." in ev[1])
-            return ev[0] in ("assign", "del") and _is_mut_target(ev[1])
+    model = cached_model(ctx.model)
+    appmod = model.module(APP)
+    stats = {"mut": 0}
 
-        traces, eng = traces_of(fn, GenericSpec(keep=lambda ev: is_point(ev) or is_update(ev) or is_mut(ev), resolver=resolver, unroll=1))
-        ctx.paths += len(traces)
-        muts = sum(1 for tr, how, st in traces for ev in tr if is_mut(ev))
-        ctx.require(muts >= 10, f"R47.2: mutation events vanished from the model ({muts})")
-        early = []  # mutation events that happen before the restore point exists on some path
-        for tr, how, st in traces:
-            for ev in tr:
-                if is_point(ev):
-                    break
-                if is_mut(ev) and ev not in early:
-                    early.append(ev)
-        ok = all(precedes(tr, is_point, is_mut) for tr, how, st in traces) and not early
-        ctx.check(ok, "R47.2", (APP, QUAL, fn), f"flow.{point}() precedes the first mutation",
-                  "a path mutates the flow before the restore point is taken: " + ", ".join(sorted(f"{ev[0]} {ev[1]}" for ev in early)[:6])
-                  + f" happen(s) before flow.{point}(), so the state restored on failure already contains that part of the rejected edit",
-                  desc=f"flow.{point}() precedes every mutation on {len(traces)} paths")
-        done = [tr for tr, how, st in traces if how == "return"]
-        ok = bool(done) and all(any(is_update(ev) for ev in tr) for tr in done)
-        ctx.check(ok, "R47.2", (APP, QUAL, fn), "self.view.update([flow]) on every completing path", "an applied edit is not announced to the view",
-                  desc=f"view.update on all {len(done)} completing paths")
-        ctx.expect_instances("R47.2", 2)
+    class Fields:
+        """native stand-in of http.Headers: an ordered multi-dict edited in place"""
 
-    # ---- R47.4
-    ctx.rule("R47.4", "the state put() restores from contains none of the flow's live objects (a snapshot, not an alias)")
-    ctx.guard(_snapshot_rule, ctx)
-    ctx.expect_instances("R47.4", 1)
+        def __init__(self, fields=()):
+            self.fields = [tuple(f) for f in fields]
+
+        def clear(self):
+            stats["mut"] += 1
+            self.fields.clear()
+
+        def add(self, key, value):
+            if not isinstance(key, (str, bytes)) or not isinstance(value, (str, bytes)):
+                raise TypeError("header name / value must be str or bytes")
+            stats["mut"] += 1
+            self.fields.append((key, value))
+
+        def insert(self, index, key, value):
+            if not isinstance(key, (str, bytes)) or not isinstance(value, (str, bytes)):
+                raise TypeError("header name / value must be str or bytes")
+            stats["mut"] += 1
+            self.fields.insert(index, (key, value))
+
+        def __len__(self):
+            return len(self.fields)
+
+        def __iter__(self):
+            return iter([k for k, _ in self.fields])
+
+        def items(self, multi=False):
+            return list(self.fields)
+
+    MSG_ATTRS = {
+        "request": {"method": str, "scheme": str, "host": str, "path": str, "http_version": str, "port": int, "text": (str, type(None)), "headers": Fields, "trailers": (Fields, type(None))},
+        "response": {"reason": str, "http_version": str, "status_code": int, "text": (str, type(None)), "headers": Fields, "trailers": (Fields, type(None))},
+    }
+
+    FLOW_KEYS = ("id", "type", "version", "error", "client_conn", "server_conn", "intercepted", "is_replay", "marked", "metadata", "comment", "timestamp_created", "websocket")
+
+    def msg_state(r):
+        if r is None:
+            return None
+        return {k: (tuple(v.fields) if isinstance(v, Fields) else v) for k, v in r.__dict__.items() if not k.startswith("_")}
+
+    def flow_state(flow):
+        d = flow.__dict__
+        # the keys of the real Flow.get_state / HTTPFlow.get_state (connections abstracted to plain mappings)
+        return {"request": msg_state(d["request"]), "response": msg_state(d["response"]), **{k: _copy.deepcopy(d[k]) for k in FLOW_KEYS}, "backup": _copy.deepcopy(d["_backup"])}
+
+    def load_state(flow, state):
+        state = _copy.deepcopy(state)
+        for owner in ("request", "response"):
+            r, s = flow.__dict__[owner], state[owner]
+            ctx.require((r is None) == (s is None), "R47.3 world: message presence differs between flow and state")
+            for k, v in (s or {}).items():
+                object.__setattr__(r, k, Fields(v) if isinstance(v, tuple) else v)
+        for k in FLOW_KEYS:
+            object.__setattr__(flow, k, state[k])
+        object.__setattr__(flow, "_backup", state["backup"])
+
+    class World(Interp):
+        def exc_isa(self, name, handler, mod):
+            if super().exc_isa(name, handler, mod):
+                return True
+            # repository exception classes below third-party bases (APIError < tornado.web.HTTPError < Exception)
+            try:
+                exc = hier.canon(mod, ast.Name(id=name, ctx=ast.Load())) if name.isidentifier() else name
+            except AnalysisError:
+                return False
+            return hier.isa(exc, handler)
+
+        def assign(self, target, value, env, mod, depth):
+            if isinstance(target, ast.Attribute) and isinstance(target.value, ast.Name):
+                base = self.ev(target.value, env, mod, depth)
+                if isinstance(base, Rec) and base._name in MSG_ATTRS:
+                    # the property setters of http.Request / http.Response, abstracted: type checks and the host (IDNA) check
+                    want = MSG_ATTRS[base._name].get(target.attr)
+                    if want is None:
+                        raise AnalysisError(f"R47.3 world: write to {base._name}.{target.attr} is not modelled")
+                    if not isinstance(value, want) or isinstance(value, bool):
+                        raise Raised("TypeError" if target.attr in ("headers", "trailers", "text") else "ValueError", f"{base._name}.{target.attr} = {value!r}")
+                    if target.attr == "host" and (".." in value or " " in value or not value):
+                        raise Raised("ValueError", "invalid host (idna)")
+                    stats["mut"] += 1
+                    object.__setattr__(base, target.attr, value)
+                    self.writes.append((base._name, "attr", target.attr, value))
+                    return
+                if isinstance(base, Rec) and base._name == "flow":
+                    stats["mut"] += 1
+            return super().assign(target, value, env, mod, depth)
+
+    OLD_H, NEW_H = (("host", "example.org"), ("x-old", "1")), [["x-new", "1"], ["x-new", "2"]]
+
+    def make(prior_backup: bool, trailers: bool):
+        def message(name, **attrs):
+            return Rec(name.capitalize(), _name=name, headers=Fields(OLD_H), trailers=Fields((("old-trailer", "t"),)) if trailers else None, text="old body",
+                       http_version="HTTP/1.1", **attrs)
+
+        req = message("request", method="GET", scheme="http", host="example.org", port=80, path="/old")
+        resp = message("response", status_code=200, reason="OK")
+        flow = Rec("HTTPFlow", _bases=("Flow",), _impl=(HTTP, "HTTPFlow"), _name="flow", id="flow-id", type="http", request=req, response=resp, marked=":old:",
+                   comment="old comment", metadata={"k": ["v"]}, intercepted=True, live=False, error=None, websocket=None, version=21, is_replay=None, timestamp_created=1.5,
+                   client_conn={"id": "client", "peername": ["127.0.0.1", 51234]}, server_conn={"id": "server", "address": ["example.org", 80]}, _backup=None)
+        if prior_backup:
+            older = flow_state(flow)
+            older.update(marked="", comment="before an earlier edit")
+            older["request"]["method"] = "HEAD"
+            object.__setattr__(flow, "_backup", older)
+        object.__setattr__(flow, "get_state", lambda: flow_state(flow))
+        object.__setattr__(flow, "set_state", lambda state: load_state(flow, state))
+        updates = []
+
+        def update(flows):
+            updates.append(([f is flow for f in flows], flow_state(flow)))
+
+        update._pyint_accepts_abstract = True
+        view = Rec("View", _name="view", update=update)
+        return flow, view, updates
+
+    # ---- the edit documents
+    REQ = [("method", "POST"), ("scheme", "https"), ("host", "example.net"), ("path", "/new"), ("http_version", "HTTP/2.0"), ("port", 8080), ("headers", NEW_H),
+           ("trailers", [["new-trailer", "1"]]), ("content", "new body")]
+    REQ_BAD = [("bogus", 1), ("port", "abc"), ("headers", [["only-a-name"]]), ("trailers", [["a", "b", "c"]]), ("host", "bad..host")]
+    RESP = [("reason", "Not Found"), ("http_version", "HTTP/1.0"), ("code", "404"), ("headers", NEW_H), ("trailers", [["new-trailer", "1"]]), ("content", "new body")]
+    RESP_BAD = [("bogus", 1), ("code", "abc"), ("headers", [["only-a-name"]]), ("trailers", [[1, 2]])]
+    TOP = [("marked", ":new:"), ("request", dict(REQ)), ("response", dict(RESP)), ("comment", "new comment")]
+
+    def with_bad(valid, bad, pos):
+        rest = [(k, v) for k, v in valid if k != bad[0]]
+        return rest[:pos] + [bad] + rest[pos:]
+
+    docs = [("every valid field", TOP, True)] + [(f"only {k}", [(k, v)], True) for k, v in TOP]
+    for section, valid, bads in (("request", REQ, REQ_BAD), ("response", RESP, RESP_BAD)):
+        for bad in bads:
+            for pos in range(len(valid) + 1):
+                fields = with_bad(valid, bad, pos)
+                if pos > len(fields) - 1:
+                    continue
+                docs.append((f"{section}.{bad[0]} = {bad[1]!r} as field {pos + 1} of {len(fields)}", [("marked", ":new:"), (section, dict(fields)), ("comment", "new comment")], False))
+    for bad in (("bogus", 1), ("request", 5), ("response", [1])):
+        for pos in range(len(TOP) + 1):
+            fields = with_bad(TOP, bad, pos)
+            if pos <= len(fields) - 1:
+                docs.append((f"{bad[0]} = {bad[1]!r} as part {pos + 1} of {len(fields)}", fields, False))
+    worlds = [(True, False), (False, True)] if ctx.tier == "quick" else [(True, False), (False, True), (True, True), (False, False)]
+
+    it = World(model, externals={"mitmproxy.http.Headers": Fields, "http.Headers": Fields, "Headers": Fields})
+    it.overrides[(HTTP, "Headers")] = Fields
+    runs = rejected = accepted = dirty = 0
+    kept: dict = {}  # what stayed of a rejected edit -> example
+    silent: dict = {}
+    for prior, trailers in worlds:
+        for title, fields, valid in docs:
+            flow, view, updates = make(prior, trailers)
+            handler = Rec("FlowHandler", _impl=(APP, "FlowHandler"), _name="handler", json=_copy.deepcopy(dict(fields)), flow=flow, view=view)
+            entry = flow_state(flow)
+            it.steps = 0
+            del it.writes[:]
+            stats["mut"] = 0
+            case = f"{title} ({'an earlier backup exists' if prior else 'no earlier backup'}, {'with' if trailers else 'without'} trailers)"
+            try:
+                it.method(handler, "put", "flow-id")
+                failed = None
+            except Raised as r:
+                failed = r.name
+            runs += 1
+            ctx.cells += 1
+            after = flow_state(flow)
+            if valid:
+                ctx.require(failed is None, f"R47.2 world: the valid edit `{title}` is rejected with {failed}: the abstract flow does not match put()")
+                ctx.require(after != entry, f"R47.2 world: the valid edit `{title}` changes nothing")
+                accepted += 1
+                if not updates or not all(updates[-1][0]) or not updates[-1][0] or updates[-1][1] != after:
+                    silent.setdefault("no view.update([flow])" if not updates else "view.update before the edit is complete / without the flow", case)
+            else:
+                ctx.require(failed is not None, f"R47.3 world: the invalid edit `{title}` is accepted: the abstract flow does not match put()")
+                rejected += 1
+                dirty += stats["mut"] > 0
+                if after != entry:
+                    diff = sorted(f"{k}.{kk}" for k in ("request", "response") for kk in (entry[k] or {}) if (after[k] or {}).get(kk) != entry[k][kk]) \
+                        + sorted(k for k in entry if k not in ("request", "response") and after[k] != entry[k])
+                    kept.setdefault(", ".join(diff), (case, failed))
+    ctx.require(rejected >= 80 and accepted >= 5 and dirty * 2 >= rejected, f"R47.3 world collapsed: {rejected} rejected / {accepted} accepted edits, {dirty} rejected after a mutation")
+    fn = ctx.func(APP, QUAL)
+    ctx.check(not kept, "R47.3", (APP, QUAL, fn), "a rejected edit leaves the flow exactly as it was at entry",
+              "interpreting put() on invalid edit documents: " + "; ".join(f"`{what}` differ(s) from the state at entry after {case} was rejected with {exc}" for what, (case, exc) in sorted(kept.items())[:4])
+              + " - the restore point is not the state at entry (taken after a mutation, an older backup, or a state evaluated at failure time)",
+              desc=f"{rejected} rejected edit documents (one invalid part at every position) on {len(worlds)} abstract flows: state after == state at entry", kept=sorted(kept))
+    ctx.check(not silent, "R47.2", (APP, QUAL, fn), "self.view.update([flow]) after every accepted edit",
+              "an applied edit is not announced to the view: " + "; ".join(f"{what} for {case}" for what, case in sorted(silent.items())[:3]),
+              desc=f"view.update([flow]) with the final state after all {accepted} accepted edits")
+    ctx.bounds.append(f"R47.2/R47.3: {len(docs)} edit documents x {len(worlds)} abstract flows interpreted ({runs} runs of put)")
 
 
 def _snapshot_rule(ctx):
@@ -453,11 +864,11 @@ MUTANTS = [
     Mutant("reverse-fix-revert-to-oldest-backup", APP, H_OLD, H_OLD.replace("flow.set_state(old_state)", "flow.revert()"), "R47.3"),
     Mutant("snapshot-is-the-old-backup", APP, "        old_state = flow.get_state()\n", "        old_state = flow._backup or flow.get_state()\n", "R47.3"),
     # R47.2
-    Mutant("snapshot-after-a-mutation", APP, "        old_state = flow.get_state()\n", "        flow.marked = \"\"\n        old_state = flow.get_state()\n", "R47.2"),
+    Mutant("snapshot-after-a-mutation", APP, "        old_state = flow.get_state()\n", "        flow.marked = \"\"\n        old_state = flow.get_state()\n", "R47.3"),
     # seed C47a: fields applied before the snapshot is taken (through an alias of the edit document)
     Mutant("annotations-applied-before-snapshot", APP, "        old_state = flow.get_state()\n        flow.backup()\n        try:\n            for a, b in self.json.items():",
-           "        update: dict = self.json\n        if \"comment\" in update:\n            flow.comment = update.pop(\"comment\")\n        old_state = flow.get_state()\n        flow.backup()\n        try:\n            for a, b in update.items():", "R47.2"),
-    Mutant("headers-cleared-before-snapshot", APP, "        old_state = flow.get_state()\n", "        if \"headers\" in self.json.get(\"request\", {}):\n            self.flow.request.headers.clear()\n        old_state = flow.get_state()\n", "R47.2"),
+           "        update: dict = self.json\n        if \"comment\" in update:\n            flow.comment = update.pop(\"comment\")\n        old_state = flow.get_state()\n        flow.backup()\n        try:\n            for a, b in update.items():", "R47.3"),
+    Mutant("headers-cleared-before-snapshot", APP, "        old_state = flow.get_state()\n", "        if \"headers\" in self.json.get(\"request\", {}):\n            self.flow.request.headers.clear()\n        old_state = flow.get_state()\n", "R47.3"),
     Mutant("view-not-updated", APP, "            raise\n        self.view.update([flow])\n\n\nclass DuplicateFlow", "            raise\n\n\nclass DuplicateFlow", "R47.2"),
     # generalised shapes: a field applied outside the restoring try statement; the handler restores a state taken at failure time
     Mutant("fields-applied-before-the-try", APP, "        flow.backup()\n        try:\n            for a, b in self.json.items():",
